@@ -331,6 +331,7 @@ class Ctx:
         self.max_paths = max_paths
         self.functions_seen = set()
         self.model = None
+        self.max_unroll = 0
 
     def fresh_value(self, name, ty):
         ty = ty.strip()
@@ -381,8 +382,16 @@ class Ctx:
             for s in stmts[:-1]:
                 self.exec_stmt(fn, fr, s, p)
             term = stmts[-1]
-            p.trace.append("%s:bb%d" % (fn.name.split("::")[-1], bb))
-            if len(p.trace) > 400:
+            tag = "%s:bb%d" % (fn.name.split("::")[-1], bb)
+            p.trace.append(tag)
+            if self.max_unroll and p.trace.count(tag) > self.max_unroll:
+                # unwinding assertion: this path must be infeasible, otherwise the bound is too small
+                p.obligations.append((list(p.pc), B(False), "unwinding bound %d exceeded at %s" % (self.max_unroll, tag)))
+                p.ret = Opaque("unwound")
+                p.cut = True
+                self.done.append(p)
+                return
+            if len(p.trace) > 600:
                 raise Unsupported("path too long (loop?) in " + fn.name)
             if term == "return;":
                 ret = fr["vals"].get(0)
